@@ -6,7 +6,7 @@ TECH = "symbolic execution of go/ssa + SMT (z3, QF_BV), bounded; native replay o
 NOTE = ("trusted: go/ssa lowering of /repo, the symgo interpreter and its stub list (validated on every run by replaying "
         "sampled paths and every counterexample natively against the real build), z3 4.8.12")
 CLAIMED = {
- "C01": ("every helper answering questions about the desired ordinal set agrees with the reference definition D(r,S), for all r<=R and up to K arbitrary int32 slots plus malformed annotations; decided per path by z3", "5/C01"),
+ "C01": ("every helper answering questions about the desired ordinal set agrees with the reference definition D(r,S), for all r<=R and up to K arbitrary int32 slots plus malformed annotations, and still does when the same annotation text is evaluated a second time on another object at a larger replica count; decided per path by z3", "5/C01"),
  "C03": ("one reconcile from an arbitrary symbolic snapshot (<=N pods, r<=R, <=K slots, any policy/strategy/partition/health/revision mix): every pod delete in the API log has one of the three reasons of the statement", "5/C03"),
  "C04": ("same exploration as C03 incl. sets being deleted: every pod create is for a vacant desired ordinal, never a slot, never for a deleting set", "5/C04"),
  "C05": ("one OrderedReady reconcile from an arbitrary snapshot: at most one ordinal touched, predecessors healthy, scale-in from the top, update only when nothing is left to scale in", "5/C05"),
@@ -17,7 +17,7 @@ CLAIMED = {
  "C11": ("one sync(key) with the pause annotation or a deletion timestamp raised in every explored state (orphans waiting, unhealthy pods, slots): empty write log when paused; no pod/claim write and no adoption when deleting", "5/C11"),
  "C15": ("one sync(key) inside recover() for every spec the CRD admits within the modelled dimensions (unknown policy/strategy strings, rollingUpdate absent / without partition / arbitrary int32 partition, arbitrary history limit, stale status, empty and DoesNotExist selectors) times small pod populations incl. odd names and nil labels: no panic", "5/C15"),
  "C06": ("pods built by the real constructors for every ordinal/partition/claim-template shape carry the stable identity and storage of the statement; the real pod control over fake clients with every single failure of claim lookups, claim creates and the pod create, in every claim-map iteration order: claims first, failure blocks the pod, claims never rewritten, a re-created ordinal gets the same claims", "5/C06"),
- "C08": ("revision bookkeeping (getStatefulSetRevisions, create/update of revisions, collision loop) over stored histories with arbitrary revision numbers, engineered name collisions and collision counts, followed by a reconcile after each kind of non-template edit; codec-dependent clauses are not decided (see level_note)", "5/C08"),
+ "C08": ("revision bookkeeping (getStatefulSetRevisions, create/update of revisions, collision loop) over stored histories with arbitrary revision numbers, engineered name collisions and collision counts, a stored status.updateRevision that may be stale (names any stored revision or none), followed by a reconcile after each kind of non-template edit; codec-dependent clauses are not decided (see level_note)", "5/C08"),
  "C13": ("sync(key) over revision populations with every owner x label x upgrade-marker combination, arbitrary revision numbers and an arbitrary int32 history limit: every revision delete in the log is justified, oldest first, each revision once; also in a reconcile that re-uses and renumbers an old revision (rollback)", "5/C13"),
  "C16": ("the real constructor NewStatefulSetController wired to recording informers, then one event of every shape (pods: owner x labels x resource version x deletion timestamp x tombstones; sets: add, delete, tombstone, update with spec/status/annotation-only/label changes, pause raised or lowered, resync) delivered through the handlers it registered, against the real lister: the enqueued keys are exactly those the statement lists; one worker step with an API failure at any call: AddRateLimited vs Forget, Done always", "5/C16"),
  "C17": ("the real Upgrade helper over fake clients for every selector shape / revision population / pre-existing Advanced object, interrupted by a failure (five kinds, incl. lost responses) or a crash at any API call and re-run: ordering of the built-in delete, orphan propagation, relabelling, no pod/claim call, same final state", "5/C17"),
@@ -30,10 +30,10 @@ CLAIMED = {
 NA = {}
 EXTRA_NOTE = {
  "C08": " NOT decided: the clauses 'applying the recorded data reproduces the template exactly' and 'only the template influences the patch' (runtime.Encode / strategic-merge-patch / encoding/json are replaced by models during symbolic execution and only exercised by the native replay of sampled paths).",
- "C18": " NOT decided: byte-identity of the revision data with the built-in controller's for every pod template - it is the stated ASSUMPTION of the decided part (codec path modelled); a seeded change inside that path (seeded/C18-patch-with-usenumber) is not detected.",
+ "C18": " NOT decided: byte-identity of the revision data with the built-in controller's for every pod template - it is the stated ASSUMPTION of the decided part (codec path modelled); seeded changes inside that path (seeded/C18-patch-with-usenumber, seeded/C18-r6-patch-without-html-escaping) are not detected.",
  "C19": " Clause (a) is decided over the fields varied in the round-trip runs, with encoding/json replaced by a structural model during symbolic execution (validated on every run by the native replay with the real package); template content that is not varied there (volumes, probes, affinity, ...) and the composition with defaulting inside the hijack client's Create/Update are outside the claim.",
  "C02": " Bounded unrolling only: liveness beyond the stated number of rounds and pods is not claimed.",
- "C20": " Interleavings are explored up to the stated preemption bound; natively the schedule is the Go scheduler's, so schedule-dependent counterexamples are replayed in their 'settled' variant (the consumer pauses before Stop).",
+ "C20": " Interleavings are explored up to the stated preemption bound; natively the schedule is the Go scheduler's, so schedule-dependent counterexamples are replayed in their 'settled' variant (the consumer pauses before Stop) or, when the model contains scheduler decisions, by replaying the same inputs 25 times with random sub-millisecond pauses in the harness's source and consumer: any native failure of the assertion confirms the violation, none leaves the run inconclusive.",
  "C09": " One failing call per reconcile in the main runs, two in the 'two-failures' run; the recovery rounds are fault free.",
 }
 def main():
